@@ -16,7 +16,7 @@ LEVEL_TEXT = ("all builder classes; categorical choices (7 resolutions, 29 Ecobe
               "Boavizta instance types) enumerated completely in the thorough tier and sampled in quick; numeric "
               "parameters and the surrounding system generated; builder jobs alone or mixed with plain jobs on one server")
 LEVEL_NOTE = "Boavizta figures are read through the packaged API (call_boaviztapi) independently of the BoaviztaCloudServer mapping code; EcoLogits parameters through its model repository; the Ecobenchmark CSV with the csv module"
-RULE = ("Hypothesis draws a system spec with builder classes and one edit of a builder input. (rule) video: bitrate = "
+RULE = ("Hypothesis draws a system spec with builder classes and 1-4 successive edits of builder inputs. (rule) video: bitrate = "
         "pixels x bits per pixel x frame rate (bits/s), data = bitrate x duration, CPU = static cost x bitrate, RAM = "
         "buffer, request duration = video duration; web application: CPU and RAM = the CSV row of (technology, "
         "implementation), read independently; GenAI: token weights, data = 100 kB + weights, latency = tokens x (alpha x "
@@ -265,8 +265,15 @@ def builder_edit(draw, spec):
 @st.composite
 def cases(draw):
     spec = draw(G.specs(builders=True, max_len=18, long_prob=0.0))
-    return {"mode": "generated", "spec": spec, "id_seed": draw(st.integers(0, 2 ** 20)),
-            "edit": draw(builder_edit(spec))}
+    # 1-4 successive edits of builder inputs (a stale cache or a lost dependency often needs A -> B -> A -> C)
+    edits, cur = [], spec
+    for _ in range(draw(st.integers(1, 4))):
+        e = draw(builder_edit(cur))
+        if e is None:
+            break
+        edits.append(e)
+        cur = E.apply_spec(cur, e)
+    return {"mode": "generated", "spec": spec, "id_seed": draw(st.integers(0, 2 ** 20)), "edits": edits}
 
 
 def minimal_spec(kind, choice):
@@ -355,36 +362,37 @@ def check(case, ctx):
         js = [spec["objs"][j]["cls"] for j in F.jobs_of_server(spec, srv)]
         if "Job" in js and any(c != "Job" for c in js):
             mixed = True
-    # refresh: edit one builder input on the live model
-    e = case.get("edit")
-    if e is not None and not probs:
-        after = E.apply_spec(spec, e)
+    # refresh: edit builder inputs on the live model, one after the other
+    cur = spec
+    for e in (case.get("edits") or ([case["edit"]] if case.get("edit") else [])):
+        if probs:
+            break
+        after = E.apply_spec(cur, e)
         try:
-            E.apply_live(objs, e, spec)
-            ok = True
+            E.apply_live(objs, e, cur)
         except Exception as ex:
             fresh, fexc = F.build_case({"spec": after, "id_seed": 5})
             if fresh is not None:
                 probs.append(("refresh_edit_raises", "editing %s raised %s: %s although the target model is valid" % (
                     E.describe(e), type(ex).__name__, str(ex)[:200])))
-            ok = False
             labels.append("edit_target_invalid")
-        if ok:
-            labels.append("refresh_checked")
-            rp = rule_problems(after, objs)
-            probs += [("not_refreshed:" + k, "after editing %s: %s" % (E.describe(e), dsc)) for k, dsc in rp]
-            fresh, fexc = F.build_case({"spec": after, "id_seed": case["id_seed"] + 2})
-            if fresh is not None and not rp:
-                dd = snap.compare(snap.snapshot(S.reachable(objs)), snap.snapshot(S.reachable(fresh)))
-                if dd:
-                    probs.append(("not_refreshed:model", "after editing %s, %d value(s) differ from a fresh build; "
-                                                         "first %s %s" % (E.describe(e), len(dd), dd[0][0], dd[0][1])))
+            break
+        cur = after
+        labels.append("refresh_checked")
+        rp = rule_problems(cur, objs)
+        probs += [("not_refreshed:" + k, "after editing %s: %s" % (E.describe(e), dsc)) for k, dsc in rp]
+        fresh, fexc = F.build_case({"spec": cur, "id_seed": case["id_seed"] + 2})
+        if fresh is not None and not rp:
+            dd = snap.compare(snap.snapshot(S.reachable(objs)), snap.snapshot(S.reachable(fresh)))
+            if dd:
+                probs.append(("not_refreshed:model", "after editing %s, %d value(s) differ from a fresh build; "
+                                                     "first %s %s" % (E.describe(e), len(dd), dd[0][0], dd[0][1])))
     for k, detail in probs[:1]:
         kind = "rule_violated" if "." in k and not k.startswith("not_refreshed") else k.split(":")[0]
         ctx.violation(kind, case, detail, {"kind": kind, "what": k})
     ctx.case(case, bool(builder_classes) and (mixed or len(builder_classes) >= 1), labels + (["mixed_server"] if mixed
                                                                                             else []),
-             sample={"builder_classes": sorted(builder_classes), "edit": e})
+             sample={"builder_classes": sorted(builder_classes), "edits": case.get("edits")})
 
 
 def replay(case, ctx):
